@@ -83,13 +83,16 @@ class BasicStructure(ComplexDop):
             actual_len = encode_state.cursor_byte_position - orig_pos
 
             if actual_len < self.byte_size:
-                # Padding bytes are needed. We add an empty object at
-                # the position directly after the structure and let
-                # EncodeState add the padding as needed.
-                encode_state.cursor_byte_position = encode_state.origin_byte_position + self.byte_size
+                # Padding bytes are needed. We move the cursor to the
+                # position directly after the structure and make sure
+                # that the PDU is large enough. (the byte size is
+                # relative to the beginning of the structure.)
+                encode_state.cursor_byte_position = orig_pos + self.byte_size
                 # Padding bytes needed. these count as "used".
-                encode_state.coded_message += b"\x00" * (self.byte_size - actual_len)
-                encode_state.used_mask += b"\xff" * (self.byte_size - actual_len)
+                n = encode_state.cursor_byte_position - len(encode_state.coded_message)
+                if n > 0:
+                    encode_state.coded_message += b"\x00" * n
+                    encode_state.used_mask += b"\xff" * n
 
     @override
     def decode_from_pdu(self, decode_state: DecodeState) -> ParameterValue:
